@@ -91,7 +91,7 @@ def group_body(ctx, case):
 
 @st.composite
 def diff_cases(draw):
-    N = 2 * draw(st.integers(1, 6))
+    N = draw(st.integers(2, 13))            # odd and even grids: the central sample is index N//2 in both
     u = draw(gen.complex_array((N, N), kind=draw(st.sampled_from(["dense", "dense", "sparse"]))))
     return {"u": u, "d1": draw(gen.logfloat(1e-4, 1e-1)), "wvl": draw(gen.logfloat(0.3e-6, 10e-6)),
             "a": draw(gen.signed_logfloat(0.05, 50)), "prop": draw(st.sampled_from(["one", "lens", "two", "two"])),
@@ -207,7 +207,7 @@ def gauss_body(ctx, case):
     amp = case.get("amp", 1.0)
     U0 = amp * fresnel.gaussian_beam(x1, x1, w0, x0, y0, wvl, 0.0)
     off = (abs(x0) > 0.25 * d1 and abs(y0) > 0.25 * d1 and abs(abs(x0) - abs(y0)) > 0.25 * d1)
-    ctx.case(case, nontrivial=bool(off and (m != 1.0 or target in ("one", "lens"))), classes=[target, "N%d" % N, "m1" if m == 1.0 else ("m_within_1e-6_of_1" if abs(m - 1.0) <= 1e-6 else "m_ne_1"), "z_neg" if z < 0 else "z_pos", "off_axis" if off else "near_axis"])
+    ctx.case(case, nontrivial=bool(off and (m != 1.0 or target in ("one", "lens"))), classes=[target, "N%d" % N, "N_odd" if N % 2 else "N_even", "m1" if m == 1.0 else ("m_within_1e-6_of_1" if abs(m - 1.0) <= 1e-6 else "m_ne_1"), "z_neg" if z < 0 else "z_pos", "off_axis" if off else "near_axis"])
     ran = []
     for prop in ("angular", "one", "two", "lens"):
         if prop != target and (prop == "lens" or slack(prop, N, a, abs(t), m) is None or slack(prop, N, a, abs(t), m) < 0.9 * s * max(abs(case["ux"]), abs(case["uy"]))):
@@ -282,7 +282,7 @@ LAWS = [
     given_law("gaussian_xl", gauss_cases((256, 384)), gauss_body, {"quick": 0, "thorough": 12}, shards={"quick": 1, "thorough": 16}),
     given_law("group", group_cases(), group_body, {"quick": 300, "thorough": 3750}, shards={"quick": 3, "thorough": 16}),
     given_law("differential", diff_cases(), diff_body, {"quick": 400, "thorough": 6250}, shards={"quick": 3, "thorough": 16}),
-    given_law("gaussian", gauss_cases((32, 64)), gauss_body, {"quick": 250, "thorough": 2000}, shards={"quick": 3, "thorough": 16}),
+    given_law("gaussian", gauss_cases((32, 33, 64, 65)), gauss_body, {"quick": 250, "thorough": 2000}, shards={"quick": 3, "thorough": 16}),
     given_law("gaussian_large", gauss_cases((128,)), gauss_body, {"quick": 12, "thorough": 250}, shards={"quick": 3, "thorough": 16}),
     plain_law("airy", airy_cases, airy_body),
 ]
